@@ -277,6 +277,12 @@ pub fn write_dso_debug_stream(
     dirent.location.data_size += dynamic_length as u32;
     let dso_debug_data =
         PtraceDumper::copy_from_process(blamed_thread, dyn_addr as usize, dynamic_length)?;
+    // The stream's size has to cover exactly what is appended below.
+    if dso_debug_data.len() != dynamic_length {
+        return Err(SectionDsoDebugError::CouldNotFind(
+            "readable dynamic section",
+        ));
+    }
     MemoryArrayWriter::write_bytes(buffer, &dso_debug_data);
 
     Ok(dirent)
